@@ -26,7 +26,7 @@ def run(ctx):
                        "valid, mutated, truncated and chained inputs chunked vs contiguous, reader failures at a random offset, a reused decoder (Reset to another buffer size) vs a "
                        "fresh one, the raw decoder chunked vs contiguous and with the reader failing at every sequence boundary, at the very end and at random offsets; non-trivial = script longer than 2; distinct by case")
     ctx.cov["checker_cmd"] = "coq/build.sh Props/C08.vo Run/RunC08.vo; coqc Props/C08.v; coqc cases_C08_*.v (vm_compute)"
-    tr = ctx.prepare(parts=["decconst"])
+    tr = ctx.prepare(parts=["factory", "dump-consts", "crc", "decoder-reset", "convmode", "decconst"])
     ok, _ = ctx.coq(["Props/C08.vo", "Run/RunC08.vo"])
     if ok:
         ctx.props()
